@@ -917,6 +917,13 @@ func genC06(r *Rng, e *Emitter, n int) {
 			}
 		}
 	}
+	// an error far down a long, pretty-printed text (line numbers of four, five, six digits) and far
+	// along its line: the message still renders
+	for _, nl := range []int{999, 1000, 9999, 10000} {
+		for _, col := range []int{0, 30, 31, 45} {
+			emitC06(e, "far-down", "POINT(1 2)"+strings.Repeat("\n", nl)+strings.Repeat(" ", col)+"x")
+		}
+	}
 	for b := 0; b < 256; b++ {
 		emitC06(e, "byte", string([]byte{byte(b)}))
 		emitC06(e, "byte", "POINT"+string([]byte{byte(b)})+"(1 2)")
